@@ -210,6 +210,24 @@ func Generate(rng *rand.Rand, i int, thorough bool) *p2prig.Scenario {
 			s.Announce[k].Nodes = nil
 		}
 	}
+	// the only peer, in the middle of being synced from, drops the connection (several replies are still to come); the
+	// service dials it again and has to carry on
+	if s.Engine == "legacy" && i%16 == 1 {
+		s.HonestLen = 60 + rng.Intn(300)
+		s.CheckpointHeights = []int32{int32(1 + rng.Intn(s.HonestLen-20))}
+		s.DisableCheckpoints = rng.Intn(4) == 0
+		s.InitialStore, s.PrefixLen = "genesis", 0
+		if rng.Intn(3) == 0 {
+			s.InitialStore, s.PrefixLen = "prefix", 1+rng.Intn(s.HonestLen/3)
+		}
+		s.Nodes = []p2prig.NodeSpec{{Kind: "honest", Cap: []int{5, 7, 12}[rng.Intn(3)], DisconnectAtMsg: 4 + rng.Intn(5)}}
+		s.DropNode0AfterSync, s.SlowConvergeWaitSec = false, 0
+		s.WaitReconnect = true
+		for k := range s.Announce {
+			s.Announce[k].Nodes = nil
+		}
+		return s
+	}
 	// a single honest peer and a store that is forked in an awkward way: a stale fork reaching above the peer's tip, or a
 	// lighter fork ending exactly at the peer's height
 	if s.Engine == "legacy" && i%16 == 9 {
